@@ -1252,8 +1252,11 @@ impl<'a> Exec<'a> {
             for &i in &newly {
                 let op = &self.ops[i];
                 if op.phase == Phase::Submitted && op.polled && op.fut.is_some() && op.waker.wakes() == op.wakes_at_poll + 1 {
+                    // (Another live operation with a waker over the same
+                    // block, or a stale registration of this operation's own
+                    // earlier waker, could be what was woken.)
                     let cell = op.waker.token();
-                    let shared = self.ops.iter().enumerate().any(|(k, o)| k != i && o.waker.token() == cell);
+                    let shared = self.ops.iter().enumerate().any(|(k, o)| k != i && o.waker.token() == cell) || !op.stale_blocked.is_empty();
                     if let (false, Some(pos)) = (shared, op.final_seq.and_then(|s| positions.get(&s))) {
                         woken.push((*pos as u64, op.waker.last_wake_seq(), i));
                     }
